@@ -83,6 +83,16 @@ func c19pool() []poolEntry {
 				poolEntry{fmt.Sprintf("L:tb%d.%d", i, j), func() ugo.Object { return ugo.Bytes(head + tail) }})
 		}
 	}
+	// complete JSON documents with edge content: lone and paired surrogate escapes at the end of a string, a key with
+	// one, huge numbers, deep nesting, a NUL escape, raw control characters
+	for i, doc := range []string{`"\ud800"`, `"abc\udc00"`, `["\ud83d"]`, `{"k\udfff":1}`, `"\ud83d\ude00\ud83d"`, `"\ud83d\ude00"`, `"\u0000"`, `1e400`, `-1e-400`,
+		`123456789012345678901234567890`, strings.Repeat("[", 200) + strings.Repeat("]", 200), strings.Repeat(`{"a":`, 100) + "1" + strings.Repeat("}", 100),
+		"\"a\tb\"", `{"a":1,"a":2}`, ` [ ] `, `nul`, `"\u12"`, `"\"`} {
+		doc := doc
+		p = append(p,
+			poolEntry{fmt.Sprintf("L:js%d", i), func() ugo.Object { return ugo.String(doc) }},
+			poolEntry{fmt.Sprintf("L:jb%d", i), func() ugo.Object { return ugo.Bytes(doc) }})
+	}
 	return p
 }
 
